@@ -396,12 +396,13 @@ def scheduler(run):
   try:
     import tensorflow as tf
     from qkeras import QDense, QActivation, QConv2D
-    inp = tf.keras.Input((4, 4, 2))
+    import tensorflow.keras as keras
+    inp = keras.Input((4, 4, 2))
     y = QConv2D(2, 2, kernel_quantizer="quantized_bits(4,0,1)", bias_quantizer="quantized_po2(4)")(inp)
     y = QActivation("quantized_relu(4,1)")(y)
-    y = tf.keras.layers.Flatten()(y)
+    y = keras.layers.Flatten()(y)
     y = QDense(3, kernel_quantizer="ternary()", bias_quantizer="quantized_bits(4)")(y)
-    model = tf.keras.Model(inp, y)
+    model = keras.Model(inp, y)
     s = cb.QNoiseScheduler(0, 4)
     got = s.get_quantizers(model)
     want = []
